@@ -82,6 +82,21 @@ impl Gen {
         self.rng.below(self.universe)
     }
     pub fn insert(&mut self, k: u64) -> String {
+        if self.variant == "entry-sat" && self.rng.chance(4, 5) {
+            // the same traffic through the vacant-entry insertion primitive (`RawTable::insert`, which
+            // probes, reserves, and must probe again)
+            let (kid, vid) = (self.id(), self.id());
+            let v = 100 + self.rng.below(50);
+            return match self.rng.below(7) {
+                0 => format!("entry {} {} or_insert {} {}", k, kid, vid, v),
+                1 => format!("entry {} {} insert {} {}", k, kid, vid, v),
+                2 => format!("entry_ref {} {} or_insert {} {}", k, kid, vid, v),
+                3 => format!("raw_from_key {} vac_insert {} {} {}", k, kid, vid, v),
+                4 => format!("raw_from_key {} or_insert {} {} {}", k, kid, vid, v),
+                5 => format!("rustc_entry {} {} or_insert {} {}", k, kid, vid, v),
+                _ => format!("try_insert {} {} {} {}", k, kid, vid, v),
+            };
+        }
         let (kid, vid) = (self.id(), self.id());
         format!("insert {} {} {} {}", k, kid, vid, 100 + self.rng.below(50))
     }
